@@ -432,7 +432,7 @@ class PC(StructureEstimator):
             # (Explanation in Koller & Friedman PGM, page 88)
             for pair in node_pairs:
                 X, Y = pair
-                if not pdag.has_edge(X, Y):
+                if not pdag.has_edge(X, Y) and not pdag.has_edge(Y, X):
                     for Z in (set(pdag.successors(X)) - set(pdag.predecessors(X))) & (
                         set(pdag.successors(Y)) & set(pdag.predecessors(Y))
                     ):
@@ -454,6 +454,8 @@ class PC(StructureEstimator):
             # 4) for each X-Z-Y with X->W, Y->W, and Z-W, orient edges to Z->W
             for pair in node_pairs:
                 X, Y = pair
+                if pdag.has_edge(X, Y) or pdag.has_edge(Y, X):
+                    continue
                 for Z in (
                     set(pdag.successors(X))
                     & set(pdag.predecessors(X))
